@@ -1,6 +1,6 @@
 (* Single entry point of the extracted model: one case in, one canonical ASCII line out. *)
 From Coq Require Import String.
-From Ruler Require Import Bytes Show Base62 Sha256 Bincode StateFiles Bundle RuleSyntax Parser TopoSort ShowRules World Work Build Ops Concrete Server Protocol Acts Sched.
+From Ruler Require Import Bytes Show Base62 Sha256 Bincode StateFiles Bundle RuleSyntax Parser TopoSort ShowRules World Work Build Ops Concrete Server Protocol Acts Sched Fine.
 
 (* operations as the harness writes them: names are the 43-character text forms, state files raw bytes *)
 Inductive xop :=
@@ -49,6 +49,7 @@ Inductive case :=
 | CHistory (coarse : bool) (t0 : N) (ops : list xop)
 | CCrash (with_acts : bool) (coarse : bool) (t0 : N) (ops : list xop)
 | COrder (coarse : bool) (t0 : N) (ops : list xop) (goal : option bytes) (ord : list nat)
+| CFine (coarse : bool) (t0 : N) (ops : list xop) (goal : option bytes) (events : list (nat * nat))
 | CTrace (rules_text : bytes) (goal : option bytes) (is_clean : bool) (events : list event)
 | CServe (cache : list (bytes * bytes)) (hist : list (bytes * bytes)) (requests : list (list bytes)).
 
@@ -114,6 +115,102 @@ Definition show_order_run (mode : clock_mode) (t0 : N) (ops : list cop) (goal : 
   let o := build_ord c_teqb c_hc c_hl c_hr ord w RULES_PATH goal in
   paren [lit "order"; show_bool valid; show_obs (tick (o_world o)) (Some o)].
 
+(* ---- a build under an interleaving of the workers' cache operations (Model/Fine.v) ----
+   events: (worker, kind) in the global order in which the implementation performed its operations on the cache;
+   kind 0 = rename(target -> cache), 1 = is_file(cache entry), 2 = rename(cache entry -> target).
+   Between two events every worker performs, eagerly, the steps that touch nothing shared. *)
+
+Definition next_shared_kind (pack : node_pack) (blobs : list (blob cticket)) (st : fnstate cticket) (k : nat) : option nat :=
+  let nl := length (p_leaves pack) in
+  if Nat.ltb k nl then None
+  else
+    let b := nth k blobs [] in
+    let ws := nth k (fn_workers st) (mk_wst cticket WDone None []) in
+    match wst_phase cticket ws with
+    | WResolve _ i =>
+        match nth_error b i, nth_error (wst_rem cticket ws) i with
+        | Some (p, assumed), Some r =>
+            match get_file_ticket c_teqb c_hc (fn_world st) p assumed with
+            | Some cur => if c_teqb (fs_t r) cur then None else Some 0%nat
+            | None => None
+            end
+        | _, _ => None
+        end
+    | WCheck _ _ => Some 1%nat
+    | WRename _ _ => Some 2%nat
+    | WFresh i =>
+        match nth_error b i with
+        | Some (p, assumed) => match get_file_ticket c_teqb c_hc (fn_world st) p assumed with Some _ => Some 0%nat | None => None end
+        | None => None
+        end
+    | _ => None
+    end.
+
+(* worker k makes local steps until its next step is a shared one (or it cannot move) *)
+Fixpoint advance_local (fuel : nat) (pack : node_pack) (blobs : list (blob cticket)) (hists : list (history cticket))
+         (st : fnstate cticket) (k : nat) : fnstate cticket :=
+  match fuel with
+  | O => st
+  | S f =>
+      match next_shared_kind pack blobs st k with
+      | Some _ => st
+      | None =>
+          match fstep c_teqb c_hc c_hl pack blobs hists st k with
+          | Some st' => advance_local f pack blobs hists st' k
+          | None => st
+          end
+      end
+  end.
+
+Definition advance_all (rounds : nat) (pack : node_pack) (blobs : list (blob cticket)) (hists : list (history cticket))
+           (st : fnstate cticket) : fnstate cticket :=
+  fold_left (fun s _ => fold_left (fun s' k => advance_local 64 pack blobs hists s' k) (seq 0 (nworkers pack)) s)
+            (seq 0 rounds) st.
+
+(* returns the final state and the number of events that did not match the model's next step *)
+Fixpoint replay_events (pack : node_pack) (blobs : list (blob cticket)) (hists : list (history cticket))
+         (events : list (nat * nat)) (st : fnstate cticket) (bad : nat) : fnstate cticket * nat :=
+  match events with
+  | [] => (advance_all (S (nworkers pack)) pack blobs hists st, bad)
+  | (k, kind) :: rest =>
+      let st1 := advance_all (S (nworkers pack)) pack blobs hists st in
+      match next_shared_kind pack blobs st1 k with
+      | Some kd =>
+          if Nat.eqb kd kind then
+            match fstep c_teqb c_hc c_hl pack blobs hists st1 k with
+            | Some st2 => replay_events pack blobs hists rest st2 bad
+            | None => replay_events pack blobs hists rest st1 (S bad)
+            end
+          else replay_events pack blobs hists rest st1 (S bad)
+      | None => replay_events pack blobs hists rest st1 (S bad)
+      end
+  end.
+
+Definition show_fine_run (mode : clock_mode) (t0 : N) (ops : list cop) (goal : option bytes) (events : list (nat * nat)) : bytes :=
+  let w := c_run (init_world mode t0) ops in
+  match init_dir cticket w with
+  | Err _ => lit "(fine noplan)"
+  | Ok (w1, t) =>
+      match get_nodes cticket w1 RULES_PATH goal with
+      | Err _ => lit "(fine noplan)"
+      | Ok pack =>
+          match read_histories cticket c_teqb c_hr w1 (p_nodes pack) with
+          | None => lit "(fine noplan)"
+          | Some hists =>
+              let (blobs, t') := take_blobs c_hc t (worker_paths pack) in
+              let n := nworkers pack in
+              let st0 := mk_fn w1 (repeat (mk_wst cticket WWait None []) n) (repeat None n) (repeat None n) [] in
+              let (st1, bad) := replay_events pack blobs hists events st0 O in
+              let results := flat_map (fun o => match o with Some r => [r] | None => [] end) (fn_res st1) in
+              let js := fold_left (join_one cticket c_teqb c_hr) results (mk_js cticket (fn_world st1) t' [] []) in
+              let w3 := write_table cticket (js_world cticket js) (js_table cticket js) in
+              let o := mk_outcome w3 (match js_errors cticket js with [] => VOk | es => VWorkErrors es end)
+                                  (sort_strs (fn_commands st1)) (js_status cticket js) in
+              paren [lit "fine"; show_nat bad; show_bool (all_done st1); show_obs (tick w3) (Some o)]
+          end
+      end
+  end.
+
 Definition show_dec_err (e : dec_err) : bytes :=
   match e with
   | InvalidLength => lit "InvalidLength"
@@ -173,6 +270,8 @@ Definition run_case (c : case) : bytes :=
   | CCrash wa coarse t0 ops => show_crash_run wa (if coarse then Coarse else Fine) t0 (flat_map cop_of ops)
   | COrder coarse t0 ops goal ord =>
       show_order_run (if coarse then Coarse else Fine) t0 (flat_map cop_of ops) goal ord
+  | CFine coarse t0 ops goal events =>
+      show_fine_run (if coarse then Coarse else Fine) t0 (flat_map cop_of ops) goal events
   | CHistory coarse t0 ops =>
       show_history_run (if coarse then Coarse else Fine) t0 (flat_map cop_of ops)
   end.
